@@ -129,4 +129,28 @@ theorem C09_read_fields (s : St) (extra : List (Str × Str)) (names : List Str) 
 
 example : expandsTo (readAssign {} [] ["A".toList, "B".toList] "1   2  3".toList) "B".toList = "2 3".toList := by decide
 
+/-! ### histories: prefixed lines can be erased from ANY history without changing the state it ends in -/
+
+def isPrefixOp : Op → Bool
+  | .prefixed _ _ => true
+  | .prefixedFn _ _ => true
+  | _ => false
+
+/-- the state a history of operations ends in -/
+def runOps (fs : Str → FsRes) (s : St) (ops : List Op) : St := ops.foldl (fun s o => (step fs s o).1) s
+
+/-- for EVERY history and start state: deleting all `NAME=v cmd` / `NAME=v func` lines leaves the final state -- and therefore every later
+expansion, every later child's environment and the working directory -- unchanged -/
+theorem C09_prefixes_erasable (fs : Str → FsRes) (ops : List Op) : ∀ (s : St),
+    runOps fs s ops = runOps fs s (ops.filter fun o => !isPrefixOp o) := by
+  induction ops with
+  | nil => intro s; rfl
+  | cons o rest ih =>
+    intro s
+    cases o <;> simp [runOps, List.foldl_cons, isPrefixOp, step] <;> first | exact ih _ | (simpa [runOps] using ih _)
+
+example : runOps (fun _ => .missing) {} [.assign "A".toList "1".toList, .prefixed "A".toList "2".toList, .prefixedFn "A".toList "3".toList] =
+    runOps (fun _ => .missing) {} [.assign "A".toList "1".toList] := by
+  rw [C09_prefixes_erasable]; rfl
+
 end Cicada.EnvCd
